@@ -27,12 +27,14 @@ ENGINE = 'E2'
 EXHAUSTIVE = True
 RULE = ('every spec of: [cross] blocks 1..3 x variables per block 1..12 x value form {positive, negative, 3-digit '
         'exponent, zero, mixed incl. a rounding carry} x porosity {absent, value, 0.0} x {TOUGH2 without / TOUGHREACT '
-        'with permeability triples} x nseq,nadd {absent, (1,2), (99999,12345)} x timing {absent, present} x reset '
+        'with permeability triples; on the mixed form also triples with an exact 0.0 in each position and in all three} x nseq,nadd {absent, (1,2), (99999,12345)} x timing {absent, present} x reset '
         '{True, False} x 6 block-name families (convention 0 alphabetic, convention 0 with numeric columns, convention '
         '1, convention 2, convention 3 with check_blocknames=False, A3/I2 quirk names) x reader num_variables {None '
         '(when <= 4), exact}; [empty] no blocks x timing x reset; [many] 40 blocks, reduced cross; [dev] one block of '
         '2..3 differing from the others in porosity / permeability / sequence numbers (every position); [styles] the '
-        'full 12-style cross of the reference writer on a reduced cross; [shipped] the 7 shipped files. Each spec: '
+        'full 12-style cross of the reference writer on a reduced cross; [reuse] reader object that has already read a '
+        'TOUGHREACT / TOUGH2 file re-used through read() (blocks 1..2 x nvar {2,5} x 3 permeability settings x 4 '
+        'timing/reset); [shipped] the 7 shipped files, and 4 ordered pairs of them read into one object. Each spec: '
         'library write -> reference reader; library write -> library read -> compare -> rewrite byte-identical; '
         'reference writer (Fortran styles) -> library read.  Non-trivial = at least one block; distinct = distinct spec.')
 ASSUMPTIONS = [
@@ -84,7 +86,8 @@ for _r, _t, _e in itertools.product(('E0', 'E0s', 'E1'), (False, True), ('\n', '
 CROSS_STYLES = sorted(k for k in STYLES if k.startswith('x-'))
 STYLE_DIGITS = {'E0': 0, 'E1': 0, 'E0s': -1}     # digits relative to the layout's d
 
-TIMING = {'kcyc': 123, 'iter': 4567, 'nm': 12, 'tstart': 1.5e3, 'sumtim': 1.0649612345e16}
+TIMING = {'kcyc': 12345, 'iter': 67890, 'nm': 21, 'tstart': 1.5e3, 'sumtim': 1.0649612345e16}   # full-width integers:
+# read with the other flavour's widths (3I5 <-> 2I6,I3) they cannot come out right by accident
 SEQ = {'none': (None, None), 'small': (1, 2), 'big': (99999, 12345)}
 POS_EXP = [5, 7, 0, -3, 2, -1, 8, 1, -7, 3, 4, -2]
 
@@ -157,6 +160,7 @@ def numvar_modes(nvar):
 
 
 TR = [(False, True), (False, False), (True, True), (True, False)]
+ZERO_PERMS = ['z0', 'z1', 'z2', 'zall']
 
 
 def specs_cross(tier):
@@ -171,6 +175,11 @@ def specs_cross(tier):
             ns, nvars, forms, ('none', 'val', 'zero'), (False, True), seqs, TR, fams):
         for nm in numvar_modes(nvar):
             out.append(mk(n, nvar, form, por, perm, seq, timing, reset, fam, nm))
+    # permeability triples with exact 0.0 components (an impermeable direction): each position, and all three
+    for n, nvar, por, perm, seq, (timing, reset), fam in itertools.product(
+            ns, nvars, ('none', 'val', 'zero'), ZERO_PERMS, ('none', 'small'), TR, fams):
+        for nm in numvar_modes(nvar):
+            out.append(mk(n, nvar, 'mixed', por, perm, seq, timing, reset, fam, nm))
     return out
 
 
@@ -182,7 +191,7 @@ def specs_empty(tier):
 def specs_many(tier):
     nvars = (1, 4, 5, 12) if tier == 'thorough' else (4, 5)
     out = []
-    for nvar, perm, seq, (timing, reset), fam in itertools.product(nvars, (False, True), ('none', 'small'),
+    for nvar, perm, seq, (timing, reset), fam in itertools.product(nvars, (False, True, 'zall', 'z1'), ('none', 'small'),
                                                                    [(False, True), (True, False)], FAMILIES):
         out.append(mk(40, nvar, 'mixed', 'val', perm, seq, timing, reset, fam, 'exact'))
     return out
@@ -192,12 +201,12 @@ def specs_dev(tier):
     out = []
     for n in (2, 3):
         for k in range(n):
-            for what in ('por-none', 'por-val', 'perm-none', 'seq-none', 'seq-given'):
+            for what in ('por-none', 'por-val', 'perm-none', 'perm-zall', 'perm-z1', 'seq-none', 'seq-given'):
                 for nvar in (2, 5):
                     for (timing, reset) in ((True, False), (False, True)):
                         base_por = 'none' if what == 'por-val' else 'val'
                         base_seq = 'none' if what == 'seq-given' else 'small'
-                        perm = what == 'perm-none'
+                        perm = what.startswith('perm-')
                         out.append(mk(n, nvar, 'mixed', base_por, perm, base_seq, timing, reset, 'conv0num', 'exact',
                                       dev={'block': k, 'what': what}))
     return out
@@ -214,17 +223,33 @@ def specs_styles(tier):
     return out
 
 
+def specs_reuse(tier):
+    """History of the READER object: a t2incon that has already read a file of the other (or the same) flavour
+    reads the case's file with read(); the result must be what a fresh object reads."""
+    out = []
+    for n, nvar, perm, (timing, reset), prior in itertools.product((1, 2), (2, 5), (False, True, 'zall'), TR,
+                                                                   ('TOUGHREACT', 'TOUGH2')):
+        out.append(mk(n, nvar, 'mixed', 'val', perm, 'small', timing, reset, 'conv0num', 'exact', reuse=prior))
+    return out
+
+
 SHIPPED = [('AUTOUGH2/3/case3.incon', 2, False), ('TOUGH2/1/case1.incon', 3, False), ('TOUGH2/2/INCON', 6, False),
            ('TOUGH2/3/test.incon', 2, False), ('TOUGHREACT/1/SAVE_1', 2, False),
            ('AUTOUGH2/1/case1.incon', 3, True), ('AUTOUGH2/2/case2.incon', 3, True)]
 
 
 def specs_shipped(tier):
-    return [{'shipped': p, 'nvar': nv, 'big': big} for p, nv, big in SHIPPED if tier == 'thorough' or not big]
+    out = [{'shipped': p, 'nvar': nv, 'big': big} for p, nv, big in SHIPPED if tier == 'thorough' or not big]
+    # the same files read into an object that has read another shipped file before
+    for a, b in (('TOUGHREACT/1/SAVE_1', 'AUTOUGH2/3/case3.incon'), ('AUTOUGH2/3/case3.incon', 'TOUGHREACT/1/SAVE_1'),
+                 ('TOUGH2/2/INCON', 'TOUGH2/3/test.incon'), ('TOUGHREACT/1/SAVE_1', 'TOUGH2/3/test.incon')):
+        nv = dict((p, n) for p, n, big in SHIPPED)
+        out.append({'shipped': b, 'nvar': nv[b], 'big': False, 'after': a, 'after_nvar': nv[a]})
+    return out
 
 
 GROUPS = [('cross', specs_cross, 64), ('empty', specs_empty, 1), ('many', specs_many, 12), ('dev', specs_dev, 2),
-          ('styles', specs_styles, 6), ('shipped', specs_shipped, 7)]
+          ('styles', specs_styles, 6), ('reuse', specs_reuse, 2), ('shipped', specs_shipped, 11)]
 
 
 def units(tier):
@@ -282,12 +307,17 @@ def model(spec):
                 por = 'val'
             elif w == 'perm-none':
                 perm = False
+            elif w in ('perm-zall', 'perm-z1'):
+                perm = w[5:]
             elif w == 'seq-none':
                 seq = 'none'
             elif w == 'seq-given':
                 seq = 'big'
         porosity = {'none': None, 'val': 0.1 + 0.0123456789012 * b, 'zero': 0.0}[por]
         k = [6.51e-14 * (b + 1), 1.2345678901e-15, 3.3e-13 + 1e-20 * b] if perm else None
+        if perm in ZERO_PERMS:
+            for j in ((0, 1, 2) if perm == 'zall' else (int(perm[1]),)):
+                k[j] = 0.0
         nseq, nadd = SEQ[seq]
         blocks.append({'name': names[b], 'vars': [value(spec['form'], b, i) for i in range(nvar)], 'por': porosity,
                        'perm': k, 'nseq': nseq, 'nadd': nadd})
@@ -334,6 +364,10 @@ def describe(inc):
 
 # ------------------------------------------------------------------------------------------ oracles
 
+class StaleFlavour(Exception):
+    pass
+
+
 class Findings(object):
     def __init__(self, site, spec):
         self.site, self.spec, self.items, self.clauses = site, spec, [], set()
@@ -354,6 +388,10 @@ def close(got, want, tol):
 def classes(spec, M):
     nlines = (spec['nvar'] + 3) // 4
     fl = 'TOUGHREACT' if M['toughreact'] else 'TOUGH2'
+    if any(b['perm'] is not None and 0.0 in b['perm'] for b in M['blocks']):
+        fl += '+zero-permeability'
+    if spec.get('reuse'):
+        fl += ',reader-used-before'
     return {'name': 'names=%s' % spec.get('names'), 'vars': 'form=%s,records=%d' % (spec.get('form'), nlines),
             'por': 'porosity=%s' % spec.get('por'), 'perm': fl, 'seq': 'seq=%s' % spec.get('seq'),
             'timing': '%s,reset=%s' % (fl, spec.get('reset')), 'flavour': fl, 'count': 'blocks=%s' % spec.get('n')}
@@ -460,14 +498,46 @@ def file_image(M):
             'timing': M['timing'], 'toughreact': M['toughreact']}
 
 
+PRIOR = {'blocks': [{'name': 'zz  1', 'nseq': None, 'nadd': None, 'porosity': 0.3, 'permeability': None,
+                     'variables': [2.5e5, 33.0]},
+                    {'name': 'zz  2', 'nseq': 7, 'nadd': 8, 'porosity': 0.3, 'permeability': None,
+                     'variables': [3.5e5, 44.0]}],
+         'timing': {'kcyc': 999, 'iter': 88888, 'nm': 7, 'tstart': 2.0, 'sumtim': 3.0e9}}
+
+
+def prior_file(flavour):
+    """A small reference-written SAVE file of the given flavour, for readers with a history."""
+    path = os.path.join(core.scratch(), 'c13_prior_%s.incon' % flavour)
+    if not os.path.exists(path):
+        img = {'blocks': [dict(b) for b in PRIOR['blocks']], 'timing': PRIOR['timing'],
+               'toughreact': flavour == 'TOUGHREACT'}
+        if flavour == 'TOUGHREACT':
+            for b in img['blocks']:
+                b['permeability'] = [1e-13, 2e-13, 3e-14]
+        with open(path, 'w', newline='') as fh:
+            fh.write(fc.write_incon(img, STYLES['autough2']))
+    return path
+
+
 def lib_read(path, spec, check_names=True, limit=TIME_LIMIT):
     import t2incons
     nv = None if spec.get('numvar') == 'none' else spec['nvar']
+
+    def go():
+        if spec.get('reuse'):
+            inc = t2incons.t2incon(prior_file(spec['reuse']))
+            inc.read(path, nv, check_names)
+            return inc
+        if spec.get('after'):
+            inc = t2incons.t2incon(spec['after'], num_variables=spec['after_nv'])
+            inc.read(path, nv, check_names)
+            return inc
+        return t2incons.t2incon(path, num_variables=nv, check_blocknames=check_names)
     with quiet():
         if limit is None:       # the caller holds the (only) timer; core.timelimit does not nest
-            return t2incons.t2incon(path, num_variables=nv, check_blocknames=check_names)
+            return go()
         with core.timelimit(limit):
-            return t2incons.t2incon(path, num_variables=nv, check_blocknames=check_names)
+            return go()
 
 
 def evaluate(spec, tier='thorough'):
@@ -482,6 +552,7 @@ def evaluate(spec, tier='thorough'):
         if os.path.exists(p):
             os.remove(p)
     viol = []
+    hist = '[reader read a %s file before]' % spec['reuse'] if spec.get('reuse') else ''
     t_before = _timeouts[0]
     reset = spec['reset']
     long_form = M['timing'] is not None and not reset
@@ -509,20 +580,26 @@ def evaluate(spec, tier='thorough'):
     viol += W.items
     # ---- 2. library reads its own file, compare, rewrite
     if bytes1 is not None:
-        B = Findings('write+read', spec)
+        B = Findings('write+read' + hist, spec)
         try:
             inc2 = lib_read(f1, spec, check_names)
             stats['round_trips'] += 1
             cmp_mem(M, describe(inc2), long_form, C, B)
+            if hist and 'simulator' in B.clauses:
+                # flavour left over from the reader's earlier file: what follows from it (timing widths, second
+                # write) is the same defect - error states are not expanded
+                B.items = [it for it in B.items if '|simulator|' in it[0]]
+                raise StaleFlavour()
             try:
                 with quiet(), core.timelimit(TIME_LIMIT):
                     inc2.write(f2, reset)
                 with open(f2, newline='') as fh:
                     bytes2 = fh.read()
-                if bytes2 != bytes1:
+                if bytes2 != bytes1 and not B.items:
+                    # (when the re-read geometry already differs, a different second file is the same finding)
                     l1, l2 = bytes1.split('\n'), bytes2.split('\n')
                     k = next((i for i, (a_, b_) in enumerate(zip(l1, l2)) if a_ != b_), min(len(l1), len(l2)))
-                    B2 = Findings('rewrite', spec)
+                    B2 = Findings('rewrite' + hist, spec)
                     B2.add('bytes-differ', 'second write differs from the first at line %d: %r -> %r'
                            % (k + 1, l1[k] if k < len(l1) else None, l2[k] if k < len(l2) else None), C['flavour'])
                     viol += B2.items
@@ -531,6 +608,8 @@ def evaluate(spec, tier='thorough'):
             except Exception as e:
                 B.add('rewrite-raises', 'writing the re-read conditions raised %s: %s' % (type(e).__name__, e),
                       type(e).__name__)
+        except StaleFlavour:
+            pass
         except core.CaseTimeout:
             _timeouts[0] += 1
             B.add('timeout', 'reading the library-written file did not finish in %d s' % TIME_LIMIT, exc_cls)
@@ -549,7 +628,7 @@ def evaluate(spec, tier='thorough'):
     base_clauses = None
     for sname in names:
         st = STYLES[sname]
-        Fs = Findings('read(ref-written)', spec)
+        Fs = Findings('read(ref-written)' + hist, spec)
         try:
             text = fc.write_incon(img, st)
         except fc.RefFormatError as e:
@@ -560,6 +639,9 @@ def evaluate(spec, tier='thorough'):
         try:
             inc3 = lib_read(f3, spec, check_names)
             cmp_mem(M, describe(inc3), M['timing'] is not None, C, Fs, STYLE_DIGITS[st['real']])
+            if hist and 'simulator' in Fs.clauses:
+                Fs.items = [it for it in Fs.items if '|simulator|' in it[0]]
+                Fs.clauses = set(['simulator'])
         except core.CaseTimeout:
             _timeouts[0] += 1
             Fs.add('timeout', 'reading the reference-written file did not finish in %d s' % TIME_LIMIT, exc_cls)
@@ -593,11 +675,16 @@ def shipped_check(spec):
     stats = {'round_trips': 0, 'ref_reads': 1, 'ref_written': 0}
     cls = rel.split('/')[0] + '/' + rel.split('/')[1]
     C = dict((k, cls) for k in ('name', 'vars', 'por', 'perm', 'seq', 'timing', 'flavour', 'count'))
-    F = Findings('read(shipped)', spec)
+    hist = ''
+    rspec = {'nvar': nvar, 'numvar': 'none' if nvar <= 4 else 'exact'}
+    if spec.get('after'):
+        hist = '[reader read %s before]' % spec['after'].rsplit('/', 1)[0]
+        rspec['after'] = os.path.join(incon_dir(), spec['after'])
+        rspec['after_nv'] = spec['after_nvar'] if spec['after_nvar'] > 4 else None
+    F = Findings('read(shipped)' + hist, spec)
     with open(path, newline='') as fh:
         text = fh.read()
     R = fc.read_incon(text, nvar, strict=False)
-    rspec = {'nvar': nvar, 'numvar': 'none' if nvar <= 4 else 'exact'}
     try:
         inc = lib_read(path, rspec, limit=None)
     except core.CaseTimeout:
@@ -623,6 +710,8 @@ def shipped_check(spec):
     M['blocks'] = [seen[nm] for nm in order]
     D = describe(inc)
     cmp_mem(M, D, M['timing'] is not None, C, F, ddelta=30)      # ddelta 30: exact to the last bit
+    if hist and 'simulator' in F.clauses:
+        return [it for it in F.items if '|simulator|' in it[0]], 'shipped', stats     # error state not expanded
     viol = list(F.items)
     # the upstream expectation arrays next to the file
     here = os.path.dirname(path)
@@ -639,13 +728,13 @@ def shipped_check(spec):
     d = core.scratch()
     f1, f2 = os.path.join(d, 'c13_s1.incon'), os.path.join(d, 'c13_s2.incon')
     reset = inc.timing is None
-    B = Findings('write+read', spec)
+    B = Findings('write+read' + hist, spec)
     try:
         with quiet():
             inc.write(f1, reset)
         with open(f1, newline='') as fh:
             bytes1 = fh.read()
-        W = Findings('write', spec)
+        W = Findings('write' + hist, spec)
         try:
             R1 = fc.read_incon(bytes1, nvar)
             stats['ref_reads'] += 1
